@@ -127,6 +127,17 @@ func TestBoundedRoundTripGrammar(t *testing.T) {
 		lines = append(lines, b.String())
 	}
 	lines = append(lines, "-D", "-D -k x")
+	// several string-valued fields in one rule (the decoder slices them out of one buffer)
+	strF := []string{"subj_user=system_u", "exe!=/usr/bin/sudo", "path=/etc/passwd", "obj_type=etc_t", "subj_role=r", "dir=/tmp", "obj_lev_low=s0", "subj_clr=s0:c0.c1023"}
+	for n := 2; n <= len(strF); n++ {
+		for start := 0; start < len(strF); start++ {
+			l := "-a always,exit -S open"
+			for k := 0; k < n; k++ {
+				l += " -F " + strF[(start+k)%len(strF)]
+			}
+			lines = append(lines, l, l+" -k demo", l+" -k a -k bb -k ccc")
+		}
+	}
 	if os.Getenv("VERIF_TIER") == "thorough" {
 		// thorough tier: every pair of (field, operator, value) cases in one rule, sampled by VERIF_SEED
 		seed := 1
